@@ -20,7 +20,7 @@ Proof. exact merge_unsafe_refuted_C01. Qed.
 Print Assumptions C01_merge_unsafe_refuted.
 
 (** the unguarded statement of C01 (Spec.C01_response_admitted) is false for the current code: on
-    the witness no fuel makes the emitted type admit the response {a: {}} *)
+    the witness no fuel makes the emitted type accept the response {a: {}} *)
 Theorem C01_full_statement_refuted :
   ~ C01_response_admitted w_schema w_merge (first_def w_merge) (type_of w_merge).
 Proof. exact Refuted.C01_full_statement_refuted. Qed.
